@@ -176,6 +176,7 @@ pub fn run(ctx: &Ctx) -> Outcome {
     let cfg = TapeCfg::new(ctx, 3000, 150_000, 400);
     out.shards = cfg.shards;
     out.absorb(tape_search(ctx, "main", &cfg, check, describe));
+    out.assumptions.push("the exemptions of strict mode (stack-relative accesses, reserved words of the loaded object file) are not part of the property and are not checked; only that strict-only failures are strict errors and accepted steps are unchanged".into());
     out.essential = ["strict-rejected-step", "compared-steps", "pc-left-user-space", "fully-initialised-machine"].iter().map(|s| s.to_string()).collect();
     out
 }
